@@ -49,22 +49,42 @@
   runs the alias patterns with operands whose LogDimensions differ, in both orders.  `alias_sound_meta`: aliased =
   fresh for the metadata component of every such operation.
 
-  Harness only (no model counterpart; harness/c09_naming.go): `alias_naming/…` — the receiver named as the SAME object
-  through `x.El()` / an rlwe.ElementInterface must be refused or give the fresh-output result; `output_independent/…` —
-  the output of every catalogue operation (incl. rotation by 0, galEl = 1, scalars 0/1, nothing-to-do rescalings, the
-  …New forms) shares no polynomial storage and no MetaData struct with an input.  A SECOND HEADER over the same storage
-  (`&rlwe.Ciphertext{Element: *x.El()}`) is another object: the pointer comparisons this model transcribes cannot see
-  it, the products then read what they overwrite (statistics `second_header_*` only; fixes/not-applied/C09-8).
+  Frame and history-freeness are GENERAL theorems over the program syntax (Proofs/StoreFrame.lean): `frame_general`
+  (`Prog.writesWithin`), `history_free_general` (`Prog.readsFrom`), instantiated for EVERY modelled operation:
+  `inputs_unchanged_modelled` (any objects in the roles, any store, any n, any number of digits),
+  `frame_ckks_addSub_all_degrees` / `frame_tensor_all_degrees` (every degree, no bound), `history_free_modelled`.
+  Operation families beyond the evaluators: `encryptSkProg` (Encrypt under a secret key into a reused receiver),
+  `decryptProg` (NTT and coefficient domain), `ckgGenShareProg`, `evkGenShareProg` (with / without auxiliary modulus,
+  any number of base-two digits) — transcribed from core/rlwe/encryptor.go, decryptor.go, multiparty/keygen_cpk.go,
+  keygen_evk.go; ties `inputs <op>`, `hist <op>`.
 
-  Not modelled: coefficient-level aliasing inside one ring operation (the ring kernels are coefficient-wise or
-  buffer their input, property C01); degrees ≥ 3; the CONTENT of the limbs a level change drops or appends
-  (`ring.Poly.Resize`: truncation / fresh zero limbs — probes only); bgv.matchScaleThenEvaluateInPlace and
-  bgv.tensorScaleInvariant keep their degree 1 ⊕ 1 / 1 ⊗ 1 programs (the only degrees tensorScaleInvariant accepts).
+  STATUS.  Proved for all inputs (uninterpreted arithmetic, every store): all `alias_sound_*`, `frame_*`,
+  `inputs_unchanged_modelled`, `history_free_*`, `alias_sound_meta`, the `*_counterexample`s.  Under named hypotheses:
+  `TensorLaws`, `ScaleLaws`, `DegLaws`, `hcopy` (algebraic laws of the ring / scale arithmetic the routines rely on when
+  they swap operands; discharged for the driver's `Int` interpretation in Proofs/StoreInt.lean, not for RNS
+  polynomials); `alias_sound_*_degrees` for degrees ≤ 2 (`hdeg`; the frame theorems have no bound);
+  `history_free_modelled` for EvaluationKeyGenProtocol.GenShare with ≤ 3 digits (`hev`; frame: any number).
+  Tied only (model = code on the explored calls): the outcome classes `alias`, `inputs`, `hist`, `addhist`, `aliasd`,
+  `shape` — that the transcribed read/write order IS the code's is what the tie checks.
+  Probed only (no model): every other public operation (rotations, rescaling, linear transformations, polynomial
+  evaluators incl. two PolynomialVector evaluations with different slot mappings, rgsw, ring.Div*, encoders, key
+  generator, EVERY function of every multiparty protocol: `inputs_unchanged` of all arguments incl. secret keys and
+  CRPs); `alias_naming/…` (the receiver named as the SAME object through `x.El()` / an rlwe.ElementInterface);
+  `output_independent/…` (no shared polynomial storage / MetaData struct between output and inputs, incl. degenerate
+  arguments and the …New forms).  A SECOND HEADER over the same storage (`&rlwe.Ciphertext{Element: *x.El()}`) is another
+  object: statistics `second_header_*` only (fixes/not-applied/C09-8).
+
+  Not covered: coefficient-level aliasing inside one ring operation (C01); degrees ≥ 3 in the value theorems; the CONTENT
+  of the limbs a level change drops or appends (`ring.Poly.Resize`, probes only); public-key encryption, the hoisted /
+  lazy linear-transformation paths and the polynomial evaluators have no Store program; "all histories of previous
+  calls" is covered by the arbitrary initial store of the theorems for modelled operations and by sampled histories
+  (used + poisoned evaluator, reused receivers) for the others.
 -/
 import Lattigo.Proofs.StoreInt
 import Lattigo.Proofs.StorePTS
 import Lattigo.Proofs.StoreShape
 import Lattigo.Proofs.StoreMeta
+import Lattigo.Proofs.StoreFrame
 
 namespace Lattigo.Props.C09
 open Lattigo.Store
@@ -251,6 +271,54 @@ example : [7, 8].length ≤ max [1, 2].length [10, 20].length ∧ [1, 2] ≠ ([]
 theorem add_history_counterexample :
     addIntoOld (0 : Int) (· + ·) [1, 2] [10, 20] [7, 8, 9] = [11, 22, 9] ∧
     addIntoOld (0 : Int) (· + ·) [1, 2] [10, 20] [0, 0] = [11, 22] := addIntoOld_degree_residue_counterexample
+
+/-! ### frame and history-freeness as general theorems over the program syntax -/
+
+/-- GENERAL FRAME: a program every step of which writes into one of the listed objects leaves every location of every
+    other object unchanged (one theorem over the syntax; `Prog.writesWithin` is decidable). -/
+theorem frame_general (I : Interp α) (p : Prog) (objs : List Nat) (h : p.writesWithin objs = true)
+    (σ : Store α) (x : Loc) (hx : x.obj ∉ objs) : run I p σ x = σ x := writesWithin_frame I p objs h σ x hx
+
+/-- EVERY modelled operation — the evaluator routines, Encrypt under a secret key, Decrypt, PublicKeyGenProtocol.GenShare,
+    EvaluationKeyGenProtocol.GenShare with any number of digits, PartialTracesSum for any n — whatever objects play
+    the roles op0/op1/out (not only the five aliasing patterns) and whatever the store: only the receiver and the
+    evaluator / encryptor / decryptor / protocol buffers are written. -/
+theorem inputs_unchanged_modelled (I : Interp α) (op : Op) (p : Pat) (σ : Store α) (x : Loc)
+    (hx : x.obj ≠ p.out) (hs : x.obj ∉ scratchObjs) : op.exec I p σ x = σ x :=
+  modelled_inputs_unchanged I op p σ x hx hs
+
+example : (3 : Nat) ≠ Alias.distinct.pat.out ∧ (3 : Nat) ∉ scratchObjs := by decide
+
+/-- the degree-aware programs, EVERY degree of the operands and of the receiver (no bound), every role assignment. -/
+theorem frame_ckks_addSub_all_degrees (sub : Bool) (p : Pat) (deg : Nat → Nat) (cmp : Ordering) :
+    Prog.writesWithin (p.out :: scratchObjs) (ckksAddProg sub p deg cmp) = true := ckksAddProg_frame sub p deg cmp
+
+theorem frame_tensor_all_degrees (bgv relin : Bool) (p : Pat) (deg : Nat → Nat) (prog : Prog) (d : Nat)
+    (h : tensorGenDFixed bgv relin p deg = .ok (prog, d)) : Prog.writesWithin (p.out :: scratchObjs) prog = true :=
+  tensorGenDFixed_frame bgv relin p deg prog d h
+
+/-- GENERAL HISTORY-FREENESS: if every step reads only input objects or what an earlier step wrote
+    (`Prog.readsFrom`, decidable), two runs from stores that agree on the input objects agree on every written location. -/
+theorem history_free_general (I : Interp α) (p : Prog) (ins : List Nat) (h : Prog.readsFrom ins [] p = true)
+    (σ σ' : Store α) (hagree : ∀ x : Loc, x.obj ∈ ins → σ x = σ' x) (x : Loc) (hx : Written p x) :
+    run I p σ x = run I p σ' x := readsFrom_history_free I p ins h σ σ' hagree x hx
+
+/-- … instantiated: every modelled operation with a fixed program, every aliasing pattern, every outcome of the scale
+    comparison — the result does not depend on the previous content of the receiver or of any buffer.
+    (PartialTracesSum, every n: `history_free_rlwe_partialTracesSum`; GenShare with more than 3 digits: frame only.) -/
+theorem history_free_modelled (I : Interp α) (op : Op) (hop : ∀ n, op ≠ .rlwePTS n)
+    (hev : ∀ b d, op = .evkGenShare b d → d ≤ 3) (al : Alias) (σ σ' : Store α)
+    (hagree : ∀ x : Loc, x.obj ∈ al.pat.ins → σ x = σ' x) (x : Loc)
+    (hx : Written (op.prog I al.pat σ) x) : op.exec I al.pat σ x = op.exec I al.pat σ' x :=
+  modelled_history_free I op hop hev al σ σ' hagree x hx
+
+example : Written (Op.encryptSk.prog intI Alias.distinct.pat testStore) (L 2 0) :=
+  ⟨st (L 2 0) .neg [L 2 0], by decide, rfl⟩
+
+/-- not vacuous: the in-place variant of EvaluationKeyGenProtocol.GenShare rewrites the caller's secret key. -/
+theorem genShare_inplace_inputs_counterexample :
+    ∃ σ : Store Int, run intI (evkGenShareProgInPlace 1 Alias.distinct.pat) σ (L 0 0) ≠ σ (L 0 0) :=
+  evkGenShareInPlace_inputs_counterexample
 
 /-! ### metadata under aliasing -/
 
@@ -440,6 +508,13 @@ open Lattigo.Props.C09 in
 #print axioms Lattigo.Props.C09.alias_sound_rlwe_partialTracesSum
 #print axioms Lattigo.Props.C09.history_free_rlwe_partialTracesSum
 #print axioms Lattigo.Props.C09.alias_sound_rlwe_partialTracesSum_partial
+#print axioms Lattigo.Props.C09.frame_general
+#print axioms Lattigo.Props.C09.inputs_unchanged_modelled
+#print axioms Lattigo.Props.C09.frame_ckks_addSub_all_degrees
+#print axioms Lattigo.Props.C09.frame_tensor_all_degrees
+#print axioms Lattigo.Props.C09.history_free_general
+#print axioms Lattigo.Props.C09.history_free_modelled
+#print axioms Lattigo.Props.C09.genShare_inplace_inputs_counterexample
 #print axioms Lattigo.Props.C09.alias_sound_meta_init
 #print axioms Lattigo.Props.C09.alias_sound_meta
 #print axioms Lattigo.Props.C09.meta_overwrite_first_counterexample
